@@ -665,3 +665,45 @@ func (le *LockEngine) HeldAt(ins ssa.Instruction) map[string]int {
 	fi := le.Info(fn)
 	return fi.heldAt[ins]
 }
+
+// EffectiveReports returns fn's lock reports without those that are discharged by its callers: a sync.Cond.Wait made
+// without the cond's lock held locally is in order when the function is an unexported helper that is only called
+// statically and every call site holds that lock (the wait loop of a method moved into waitXWithoutLock(ctx)).
+func (le *LockEngine) EffectiveReports(fn *ssa.Function) []lockReport {
+	fi := le.Info(fn)
+	var out []lockReport
+	for _, rep := range fi.Reports {
+		if rep.Kind == "wait-without-L" && le.heldByAllCallers(fn, rep.Key, 0) {
+			continue
+		}
+		out = append(out, rep)
+	}
+	return out
+}
+
+func (le *LockEngine) heldByAllCallers(fn *ssa.Function, key string, depth int) bool {
+	if fn.Parent() != nil || depth >= 2 || (fn.Object() != nil && fn.Object().Exported()) {
+		return false
+	}
+	sites := le.P.staticCallSites(fn)
+	if len(sites) == 0 {
+		return false
+	}
+	for _, s := range sites {
+		call, ok := s.(*ssa.Call)
+		if !ok {
+			return false
+		}
+		tk, okT := translateKey(fn, key, call.Call.Args)
+		if !okT {
+			return false
+		}
+		if _, held := le.HeldAt(call)[tk]; held {
+			continue
+		}
+		if !le.heldByAllCallers(call.Parent(), tk, depth+1) {
+			return false
+		}
+	}
+	return true
+}
